@@ -7,7 +7,9 @@ ID="${1:?property id}"
 TIER="${2:-${VERIF_TIER:-quick}}"
 SEED="${VERIF_SEED:-0}"
 export CARGO_NET_OFFLINE=true
-cd /verif/harness || exit 2
+DIR="$(cd "$(dirname "$0")" && pwd)"
+export VERIF_ROOT="$DIR"
+cd "$DIR/harness" || exit 2
 if ! cargo build --release --offline >/tmp/tauverif_build_$$.log 2>&1; then
   # a tree that does not compile is not a property verdict
   grep -E "^error" -A12 /tmp/tauverif_build_$$.log | head -60
@@ -17,7 +19,7 @@ if ! cargo build --release --offline >/tmp/tauverif_build_$$.log 2>&1; then
 fi
 rm -f /tmp/tauverif_build_$$.log
 if [ "$ID" = "C15" ]; then
-  if ! cargo build --release --offline --features ignore_case --target-dir /verif/harness/target-ic >/tmp/tauverif_build_ic_$$.log 2>&1; then
+  if ! cargo build --release --offline --features ignore_case --target-dir "$DIR/harness/target-ic" >/tmp/tauverif_build_ic_$$.log 2>&1; then
     grep -E "^error" -A12 /tmp/tauverif_build_ic_$$.log | head -60
     rm -f /tmp/tauverif_build_ic_$$.log
     echo "BUILD-FAILED: ignore_case build does not compile"
@@ -25,5 +27,5 @@ if [ "$ID" = "C15" ]; then
   fi
   rm -f /tmp/tauverif_build_ic_$$.log
 fi
-cd /verif || exit 2
-exec /verif/harness/target/release/tauverif check "$ID" --tier "$TIER" --seed "$SEED"
+cd "$DIR" || exit 2
+exec "$DIR/harness/target/release/tauverif" check "$ID" --tier "$TIER" --seed "$SEED"
